@@ -18,7 +18,7 @@ import PgVerif.Proofs.ExtraRemote
 import PgVerif.Proofs.ExtraCluster
 import PgVerif.Proofs.ExtraSearch
 import PgVerif.Proofs.ExtraToast
-import PgVerif.Model.ExtraBlock
+import PgVerif.Proofs.ExtraBlock
 import PgVerif.Props.C10.Entry
 namespace PgVerif.Props.C10.Extra
 open PgVerif PgVerif.Model PgVerif.Model.Extra PgVerif.Proofs.Extra PgVerif.Props.C10.Cluster PgVerif.Props.C11
@@ -120,6 +120,15 @@ theorem C10_total_searchWrappers (R : Spec.Search.Regex) (sh : GoVal → Bytes) 
 
 /-- FormatBinaryDump produces a text for every byte string (a plain function: `hex.Dump`). -/
 theorem C10_total_formatBinaryDump (data : Bytes) : ∃ r : Bytes, formatBinaryDump data = r := ⟨_, rfl⟩
+
+/-- **What FormatBinaryDump prints**: one line per started 16-byte chunk and nothing else — line `i` renders bytes
+`16·i … 16·i+15` of the input (fewer on the last line) at offset `16·i`; the empty input gives the empty text.  So the
+dump shows every input byte exactly once, in order. -/
+theorem C10_formatBinaryDump_lines (data : Bytes) :
+    formatBinaryDump data =
+      (List.range ((data.length + 15) / 16)).flatMap fun i =>
+        CliRender.hexDumpLine (16 * i) ((data.drop (16 * i)).take 16) :=
+  formatBinaryDump_lines data
 
 /-- SummaryResult.MarshalJSON produces a text for every summary value (any names, passwords, byte strings that are not
 UTF-8): `json.Marshal` of strings, string slices and a string-keyed map has no error case. -/
